@@ -1001,6 +1001,7 @@ func main() {
 	// translated whole functions (funcs.go)
 	if *outFuncs != "" {
 		c.emitFuncs(*repo, *outFuncs)
+		c.emitBufiox(*repo, bxPathFor(*outFuncs)) // bufiox.go: Gen/Bufiox.lean next to Funcs.lean
 	}
 
 	// fingerprints
